@@ -168,3 +168,38 @@ def flush_model(ctx, rule):
     else:
         ctx.ok(rule, fl, fl.node, "%d abstract queue configurations: each queued watcher runs once, in (precedence, queue position) order, with the last event per watched parameter; "
                                   "events raised by a queued watcher are delivered in a further round; queues end empty" % n)
+
+
+def memo_not_mutated_in_place(ctx, rule):
+    """The class-level `.param` memo is handed out by reference (objects(instance=False),
+    edit_constant keeps it across its body), so invalidation must rebind it; an
+    in-place clear/pop/update empties the dict other code is still holding."""
+    n = 0
+    for f in ctx.repo.all_funcs("param.parameterized"):
+        src = ast.unparse(f.node)
+        if ".params" not in src:
+            continue
+        al = ctx.facts.local_aliases(f)
+        for c in ast.walk(f.node):
+            if isinstance(c, ast.Call) and isinstance(c.func, ast.Attribute) and c.func.attr in ("clear", "pop", "popitem", "update", "setdefault", "__setitem__"):
+                recv = c.func.value
+                if isinstance(recv, ast.Name) and recv.id in al:
+                    recv = al[recv.id]
+                if isinstance(recv, ast.Attribute) and recv.attr == "params":
+                    base = recv.value
+                    if isinstance(base, ast.Name) and base.id in al:
+                        base = al[base.id]
+                    root = norm(base)
+                    classlike = root.endswith("_param__private") and (root.startswith(("cls.", "mcs.", "self_.cls.", "type(")) or "cls" in root.split(".")[0]) \
+                        or root in ("private", "ns") and f.cls is not None and f.cls.name == "ParameterizedMetaclass"
+                    if classlike:
+                        n += 1
+                        ctx.fail(rule, f, c, "`%s` mutates the class-level parameter memo in place; the same dict has been handed out by objects(instance=False) and is held by "
+                                             "edit_constant across its body, so its holder suddenly sees an empty/changed mapping (e.g. constant flags are not restored)" % norm(c)[:70],
+                                 key="%s::memo-mutated-in-place" % f.qualname,
+                                 input="with edit_constant(obj): Cls.param.add_parameter(...)  -> class-level constant flags are not restored on exit")
+    inval = [g for g in ctx.repo.all_funcs("param.parameterized") if g.name == "_clear_params_cache"]
+    for g in inval:
+        rebinding = [st for st in ast.walk(g.node) if isinstance(st, ast.Assign) and any(isinstance(t, ast.Attribute) and t.attr == "params" for t in st.targets)]
+        if rebinding and not any(o.rule == rule and o.func == g.qualname and o.verdict == "violation" for o in ctx.obligations):
+            ctx.ok(rule, g, rebinding[0], "invalidation rebinds the memo to a fresh dict")
